@@ -118,9 +118,11 @@ impl<'a> ArxmlLexer<'a> {
         debug_assert!(self.buffer[self.bufpos] == b'<');
 
         let text = &self.buffer[self.bufpos + 2..endpos];
+        self.line += count_lines(text);
         self.bufpos = endpos + 1;
 
-        ArxmlEvent::EndElement(text)
+        // XML allows whitespace between the element name and the closing '>'
+        ArxmlEvent::EndElement(text.trim_ascii_end())
     }
 
     fn read_xml_header(&mut self, endpos: usize) -> Option<Result<ArxmlEvent<'a>, AutosarDataError>> {
